@@ -42,6 +42,8 @@ m = {
          "kind_free_text": "rapidcheck generators + fork-per-case execution + shrinking to a plain-text replay file; exhaustive enumeration mode for bounded sub-domains"},
         {"name": "schedlab", "path": "engine/schedlab.h", "serves_properties": [p for p in ids if p in props and props[p].get("schedlab")],
          "kind_free_text": "controlled scheduler: every vCPU / OS thread is a participant, exactly one runs, hand-offs at hook points follow the generated schedule; virtual clock"},
+        {"name": "parallel", "path": "props/locks_stress.cpp", "serves_properties": [p for p in ids if p in props and (any(q.get("name") in ("parallel", "owned") for q in props[p]["parts"]) or p == "C10")],
+         "kind_free_text": "generated workloads on real vCPUs / real kernel with uncontrolled interleavings (built on the pbt driver); logical oracles plus a no-progress watchdog; see DESIGN.md 0.2"},
         {"name": "fuzz", "path": "engine/fuzz.h", "serves_properties": [p for p in ids if p in props and any(q.get("engine") == "fuzz" for q in props[p]["parts"])],
          "kind_free_text": "libFuzzer targets with the semantic oracle inside the target and a stats dump for evidence"},
     ],
